@@ -46,25 +46,25 @@ Proof.
   intros W Ht Ho [AV AB]. destruct o as [now v|e v|now v|now v]; cbn [step op_ok tl_step] in *.
   - destruct Ho as (A & B & C).
     destruct (tempo_set_wf s now v W Ht A B C) as (s' & E & W' & T' & Vb & _).
-    exists s'. split; [exact E|]. split; [exact W'|]. split; [rewrite T'; exact C|].
+    exists s'. split; [apply strict_some; [exact E|exact (proj1 W')]|]. split; [exact W'|]. split; [rewrite T'; exact C|].
     split; [exact T'|]. intros x Hx. destruct W' as (Ty' & _).
     rewrite (affine_from s' x now Ty' Hx A). unfold py_beats in Vb. rewrite (val_toQ _ _ Vb).
     fold (py_secs2beats s now). rewrite (AB now A), T'. unfold tl_beats; cbn. ring.
   - destruct Ho as (A & B & C). assert (N : ~ toQ v == 0) by lra.
     destruct (etempo_wf s e v W A B N) as (s' & E & W' & T' & Vb & _).
-    exists s'. split; [exact E|]. split; [exact W'|]. split; [rewrite T'; exact C|].
+    exists s'. split; [apply strict_some; [exact E|exact (proj1 W')]|]. split; [exact W'|]. split; [rewrite T'; exact C|].
     split; [exact T'|]. intros x Hx. destruct W' as (Ty' & _).
     rewrite (affine_from s' x e Ty' Hx A). rewrite (val_toQ _ _ Vb).
     rewrite (AB e A), T'. unfold tl_beats; cbn. ring.
   - destruct Ho as (A & B).
     destruct (beats_set_wf s now v W A B) as (s' & E & W' & T' & Vb & _).
-    exists s'. split; [exact E|]. split; [exact W'|]. split; [rewrite T'; exact Ht|].
+    exists s'. split; [apply strict_some; [exact E|exact (proj1 W')]|]. split; [exact W'|]. split; [rewrite T'; exact Ht|].
     split; [cbn; rewrite T'; exact AV|]. intros x Hx. destruct W' as (Ty' & _).
     rewrite (affine_from s' x now Ty' Hx A). unfold py_beats in Vb. rewrite (val_toQ _ _ Vb).
     rewrite T', AV. unfold tl_beats; cbn. ring.
   - destruct Ho as (A & B & C).
     destruct (meter_set_wf s now v W A B C) as (s' & E & W' & S1 & _).
-    exists s'. split; [exact E|]. split; [exact W'|].
+    exists s'. split; [apply strict_some; [exact E|exact (proj1 W')]|]. split; [exact W'|].
     assert (TT : tempo s' = tempo s) by (rewrite meter_set_eq in E; injection E as <-; reflexivity).
     split; [rewrite TT; exact Ht|]. split; [rewrite TT; exact AV|].
     intros x Hx. rewrite S1. apply AB; exact Hx.
@@ -131,7 +131,7 @@ Proof.
         split; reflexivity).
   exists s', p. split; [reflexivity|]. split; [reflexivity|]. split; [exact W'|]. split; [exact T'|].
   split; [reflexivity|].
-  cbn [step] in E. rewrite meter_set_eq in E. injection E as <-. rewrite Hp. reflexivity.
+  cbn [step] in E. apply strict_inv in E. rewrite meter_set_eq in E. injection E as <-. rewrite Hp. reflexivity.
 Qed.
 
 Lemma run_pend_inv h : forall s p, WF s -> 0 < toQ (tempo s) -> Forall op_ok h ->
